@@ -380,6 +380,7 @@ func visitInstr(fr *frame, instr ssa.Instruction) continuation {
 		if isSym(key) {
 			panic(engineError{"symbolic map key"})
 		}
+		lsMapAccess(m, true)
 		switch m := m.(type) {
 		case map[value]value:
 			if m == nil {
